@@ -32,9 +32,29 @@ def require_reads_within(c, lo, hi, label, kind_file=None):
     return len(evs)
 
 
-def require_reads_disjoint(c, label):
-    """no byte is fetched twice within the call: ranges of distinct events / distinct iterations are disjoint"""
+def require_reads_disjoint(c, label, cell=None):
+    """no byte is fetched twice within the call: ranges of distinct events / distinct iterations are disjoint.
+    cell=(base, stride): prove it through cells -- every range lies inside the cell  [base + col*stride, +stride)
+    with col = (off - base) // stride, and distinct iterations have distinct cells (mixed-radix injectivity)."""
     evs = reads(c)
+    if cell is not None and len(evs) == 1 and evs[0].loopvars:
+        base, stride = cell
+        a = evs[0]
+        rel = ops_binop('-', a.off, base)
+        col = ops_binop('//', rel, stride)
+        rem = ops_binop('%', rel, stride)
+        c.ensure(And(ops_cmp('>=', rem, 0), ops_cmp('<=', ops_binop('+', rem, a.n), stride), ops_cmp('>=', a.n, 0)),
+                 f'{label}.range_inside_its_cell', kind='ghost')
+        pairs = []
+        conds = []
+        for (kz, n) in a.loopvars:
+            k2 = c.fresh_int('k2')
+            pairs.append((kz, k2))
+            conds.append(And(ops_cmp('>=', SInt(k2), 0), ops_cmp('<', SInt(k2), n)))
+        col2 = loops.subst(col, pairs) if is_sym(col) else col
+        differs = Or(*[mk_bool(x != y) for (x, y) in pairs])
+        c.ensure(Implies(And(And(*conds), differs), ops_cmp('!=', col, col2)), f'{label}.distinct_iterations_distinct_cells', kind='ghost')
+        return
     for i, a in enumerate(evs):
         a_end = ops_binop('+', a.off, a.n)
         if a.loopvars:
